@@ -120,6 +120,25 @@ def used_only_as_branch_condition_name(u: ast.Name) -> bool:
     return isinstance(p, (ast.If, ast.While, ast.IfExp, ast.Assert)) and p.test is child
 
 
+
+def branch_condition_kind(operand: ast.AST, fn: ast.FunctionDef, defs) -> str:
+    """'numerical' (isinf / isnan / comparison with a tiny threshold of a computed value), 'tip-data' (derived from the tip part of the node heights only), else 'parameter'"""
+    exprs = list(backward_slice(operand, defs))
+    calls = {method_name(c) for e in exprs for c in ast.walk(e) if isinstance(c, ast.Call)}
+    if calls & {'isinf', 'isnan', 'isfinite'}:
+        return 'numerical'
+    if any(isinstance(x, ast.Compare) and any(isinstance(y, ast.Name) and y.id in ('threshold', 'eps', 'tiny') for y in ast.walk(x)) for e in [operand] for x in ast.walk(e)):
+        return 'numerical'
+    names = {n.id for e in exprs for n in ast.walk(e) if isinstance(n, ast.Name)}
+    attrs = {n.attr for e in exprs for n in ast.walk(e) if isinstance(n, ast.Attribute) and isinstance(n.value, ast.Name) and n.value.id == 'self'}
+    params = {a.arg for a in fn.args.args} - {'self'}
+    if not attrs and names & params and all('tip' in nm or nm in params or nm in ('torch', 'taxa_shape', 'taxa_count', 'int', 'len') for nm in names):
+        # every name in the slice is the heights argument, a tip slice of it or a taxon count
+        if any('tip' in nm for nm in names):
+            return 'tip-data'
+    return 'parameter'
+
+
 POSITIVE = """
 class D:
     def log_prob(self, x):
@@ -612,6 +631,36 @@ def check_elementwise_coverage(ctx, rep):
     if n < 2:
         rep.incomplete('C10.C', '*', '', f"only {n} element-wise densities recognised")
 
+# ---------------------------------------------------------------------------
+# C10.K — parameters are concatenated along the event axis
+# ---------------------------------------------------------------------------
+def check_cat_axis(ctx, rep):
+    """A CatParameter built by the library itself (for a list-valued x of a distribution, for ratios + root height, for a transformed list) joins parameters that each carry
+    their sample dimensions in front: the concatenation axis must be the last one (dim=-1).  CatParameter's default is dim=0 — the first, i.e. a sample axis as soon as the
+    parameters are batched: [S, n] + [S, m] becomes [2S, n] instead of [S, n+m] and the rows of different parameters are treated as samples."""
+    n = 0
+    for mname, m in sorted(ctx.prog.modules.items()):
+        if not mname.startswith('torchtree.') or '.cli.' in mname:
+            continue
+        for c in ast.walk(m.tree):
+            if not (isinstance(c, ast.Call) and isinstance(c.func, ast.Name) and c.func.id == 'CatParameter'):
+                continue
+            fn = c
+            while fn is not None and not isinstance(fn, ast.FunctionDef):
+                fn = getattr(fn, '_parent', None)
+            if fn is not None and fn.name in ('from_json', '__repr__', 'json_factory'):
+                continue        # the axis comes from the specification
+            n += 1
+            dim = c.args[2] if len(c.args) > 2 else next((k.value for k in c.keywords if k.arg == 'dim'), None)
+            ok = dim is not None and ast.unparse(dim) == '-1'
+            cl = getattr(fn, '_parent', None) if fn is not None else None
+            scope = f"{cl.name}.{fn.name}" if isinstance(cl, ast.ClassDef) else (fn.name if fn is not None else '<module>')
+            rep.check('C10.K', f"{mname.replace('torchtree.', '')}::{scope}::{norm_text(c)[:50]}", ok, where(m, c), {'axis': ast.unparse(dim) if dim is not None else 'default (0)'},
+                      f"{scope}: `{norm_text(c)[:60]}` concatenates parameters along axis {ast.unparse(dim) if dim is not None else '0 (the default)'}: with sampled (batched) parameters "
+                      f"that is a sample axis — [S, n] and [S, m] become [2S, n] instead of [S, n + m], so the value of a sample is assembled from rows of different parameters")
+    if n < 4:
+        rep.incomplete('C10.K', '*', '', f"only {n} CatParameter constructions found")
+
 
 def run(ctx, rep):
     rep.explanation = (
@@ -656,7 +705,18 @@ def run(ctx, rep):
                     rep.ok('C10.D', key, W, {'class': 'operand free of sample dimensions (shapes / constants / index ranges)'})
                     continue
                 if name in BOOLEAN and used_only_as_branch_condition(c):
-                    rep.excluded('C10.D', key, W, 'boolean reduction used only to choose a code path: no value of one sample flows into another')
+                    kind = branch_condition_kind(operand, fn, defs)
+                    if kind == 'numerical':
+                        rep.excluded('C10.D', key, W, 'whole-batch test of a computed value for overflow / underflow: switches between two evaluations of the same quantity, no '
+                                                      'formula of one sample is applied to another')
+                        continue
+                    if kind == 'tip-data':
+                        rep.excluded('C10.D', key, W, 'whole-batch test of the tip heights (sampling dates are data shared by every sample of a batch of trees)')
+                        continue
+                    rep.bad('C10.D', key, W, {'operand': norm_text(operand)[:100], 'kind': 'branch on a whole-batch test of parameter values'},
+                            f"{qual.split('.')[-2]}.{qual.split('.')[-1]}: `{txt[:80]}` decides for the whole batch at once which formula is evaluated, from a test on parameter values: "
+                            f"when the test is true for some samples only, the other samples are evaluated with the formula chosen for them (an element-wise torch.where is the "
+                            f"per-sample form)")
                     continue
                 if (qual, txt) in TABLE:
                     used_table.add((qual, txt))
@@ -684,3 +744,20 @@ def run(ctx, rep):
     check_distribution_sample_shape(ctx, rep)
     rep.rule('C10.C', "a density that is an element-wise combination of parameter tensors and tree quantities counts every one of them in its sample shape")
     check_elementwise_coverage(ctx, rep)
+    rep.rule('C10.K', "parameters joined by the library into one (CatParameter for a list-valued x, ratios + root height …) are concatenated along the last axis")
+    check_cat_axis(ctx, rep)
+    # C10.H — a model that is re-evaluated after a new batch was assigned to its parameters uses that batch: the change handlers of the substitution / site models mark every
+    # cache dirty (C11.H machinery; a stale cache returns the values — and the sample dimension — of the previous batch)
+    from props import c11
+    from sa.members import Kinds
+    from sa.report import RuleProxy
+    rep.rule('C10.H', "substitution and site models re-evaluated after a new batch was assigned to their parameters do not serve caches of the previous batch (C11.H rules on these classes)")
+    kinds = Kinds(ctx.classes)
+    nh = 0
+    for cls in sorted(ctx.classes.classes.values(), key=lambda c: c.qualname):
+        if (cls.module.name.startswith('torchtree.evolution.substitution_model') or cls.module.name == 'torchtree.evolution.site_model') and not cls.is_abstract() \
+                and cls.has_base('torchtree.core.parametric.Parametric'):
+            nh += 1
+            c11.check_handlers(ctx, RuleProxy(rep, 'C10.H', 'handlers::'), kinds, cls)
+    if nh < 8:
+        rep.incomplete('C10.H', '*', '', f"only {nh} substitution / site model classes found")
